@@ -1,1 +1,429 @@
-//! (reference for kuznyechik: to be written)
+//! GOST R 34.12-2015 (= GOST 34.12-2018, RFC 7801) "Kuznyechik", 128-bit block, 256-bit key.
+//! Written from section 4 of the standard: 4.1.1 the substitution pi, 4.1.2 the linear map l over
+//! GF(2)[x]/(x^8+x^7+x^6+x+1), 4.2 the transformations X[k], S, R, L, their inverses and F[k],
+//! 4.3 the key schedule, 4.4 encryption E and decryption D.
+//!
+//! Representation: a 128-bit string a = a15||a14||...||a0 (a15 the most significant octet, the one printed
+//! first in the standard's hexadecimal examples) is the byte array `b` with `b[0] = a15, ..., b[15] = a0`,
+//! i.e. the octet string in the order printed.  The index of the standard is therefore `a_j = b[15 - j]`.
+//!
+//! The table PI (256 entries, cannot be computed from a short definition) was typed from 4.1.1 and
+//! compared with the pinned tree's consts.rs; PI_INV, the multiplication in the field, the iteration
+//! constants C_1..C_32 are computed here from their definitions.
+
+/// 4.1.1: pi' = (pi'(0), ..., pi'(255))
+pub const PI: [u8; 256] = [
+    252, 238, 221, 17, 207, 110, 49, 22, 251, 196, 250, 218, 35, 197, 4, 77, 233, 119, 240, 219, 147, 46, 153, 186, 23, 54, 241, 187, 20, 205, 95, 193,
+    249, 24, 101, 90, 226, 92, 239, 33, 129, 28, 60, 66, 139, 1, 142, 79, 5, 132, 2, 174, 227, 106, 143, 160, 6, 11, 237, 152, 127, 212, 211, 31,
+    235, 52, 44, 81, 234, 200, 72, 171, 242, 42, 104, 162, 253, 58, 206, 204, 181, 112, 14, 86, 8, 12, 118, 18, 191, 114, 19, 71, 156, 183, 93, 135,
+    21, 161, 150, 41, 16, 123, 154, 199, 243, 145, 120, 111, 157, 158, 178, 177, 50, 117, 25, 61, 255, 53, 138, 126, 109, 84, 198, 128, 195, 189, 13, 87,
+    223, 245, 36, 169, 62, 168, 67, 201, 215, 121, 214, 246, 124, 34, 185, 3, 224, 15, 236, 222, 122, 148, 176, 188, 220, 232, 40, 80, 78, 51, 10, 74,
+    167, 151, 96, 115, 30, 0, 98, 68, 26, 184, 56, 130, 100, 159, 38, 65, 173, 69, 70, 146, 39, 94, 85, 47, 140, 163, 165, 125, 105, 213, 149, 59,
+    7, 88, 179, 64, 134, 172, 29, 247, 48, 55, 107, 228, 136, 217, 231, 137, 225, 27, 131, 73, 76, 63, 248, 254, 141, 83, 170, 144, 202, 216, 133, 97,
+    32, 113, 103, 164, 45, 43, 9, 91, 203, 155, 37, 208, 190, 229, 108, 82, 89, 166, 116, 210, 230, 244, 180, 192, 209, 102, 175, 194, 57, 75, 99, 182,
+];
+
+/// pi^{-1}, computed (pi is a permutation: checked in the tests below)
+pub const PI_INV: [u8; 256] = {
+    let mut t = [0u8; 256];
+    let mut i = 0;
+    while i < 256 {
+        t[PI[i] as usize] = i as u8;
+        i += 1;
+    }
+    t
+};
+
+/// 4.1.2: coefficients of l(a15, ..., a0) = 148*a15 + 32*a14 + 133*a13 + 16*a12 + 194*a11 + 192*a10 + 1*a9 + 251*a8
+///        + 1*a7 + 192*a6 + 194*a5 + 16*a4 + 133*a3 + 32*a2 + 148*a1 + 1*a0, listed for a15 first
+/// (so LC[i] multiplies byte `b[i]` of the representation above).
+pub const LC: [u8; 16] = [148, 32, 133, 16, 194, 192, 1, 251, 1, 192, 194, 16, 133, 32, 148, 1];
+
+/// Multiplication by x in GF(2)[x]/p(x), p(x) = x^8 + x^7 + x^6 + x + 1 (reduction by 0xC3 on overflow), branch-free.
+#[inline]
+pub const fn xtime(a: u8) -> u8 {
+    (a << 1) ^ (0xC3 & 0u8.wrapping_sub(a >> 7))
+}
+
+/// Multiplication in the field GF(2)[x]/p(x) (octets <-> polynomials by the bijection nabla/Delta of 4.1.2:
+/// bit i of the octet is the coefficient of x^i): schoolbook, sum over the bits of `c` of c_i * x^i * a.
+pub const fn gf_mul(c: u8, a: u8) -> u8 {
+    let mut acc = 0u8;
+    let mut p = a;
+    let mut i = 0;
+    while i < 8 {
+        // add p = x^i * a when bit i of c is set
+        acc ^= p & 0u8.wrapping_sub((c >> i) & 1);
+        p = xtime(p);
+        i += 1;
+    }
+    acc
+}
+
+pub type Block = [u8; 16];
+
+/// 4.1.2: l: V8^16 -> V8
+pub const fn ell(a: &Block) -> u8 {
+    let mut acc = 0u8;
+    let mut i = 0;
+    while i < 16 {
+        acc ^= gf_mul(LC[i], a[i]);
+        i += 1;
+    }
+    acc
+}
+
+/// 4.2: X[k](a) = k xor a
+pub const fn x(k: &Block, a: &Block) -> Block {
+    let mut out = [0u8; 16];
+    let mut i = 0;
+    while i < 16 {
+        out[i] = k[i] ^ a[i];
+        i += 1;
+    }
+    out
+}
+
+/// 4.2: S(a15||...||a0) = pi(a15)||...||pi(a0)
+pub const fn s(a: &Block) -> Block {
+    let mut out = [0u8; 16];
+    let mut i = 0;
+    while i < 16 {
+        out[i] = PI[a[i] as usize];
+        i += 1;
+    }
+    out
+}
+
+/// 4.2: S^{-1}
+pub const fn s_inv(a: &Block) -> Block {
+    let mut out = [0u8; 16];
+    let mut i = 0;
+    while i < 16 {
+        out[i] = PI_INV[a[i] as usize];
+        i += 1;
+    }
+    out
+}
+
+/// 4.2: R(a15||...||a0) = l(a15, ..., a0)||a15||...||a1
+pub const fn r(a: &Block) -> Block {
+    let mut out = [0u8; 16];
+    out[0] = ell(a);
+    let mut i = 1;
+    while i < 16 {
+        out[i] = a[i - 1];
+        i += 1;
+    }
+    out
+}
+
+/// 4.2: R^{-1}(a15||...||a0) = a14||a13||...||a0||l(a14, a13, ..., a0, a15)
+pub const fn r_inv(a: &Block) -> Block {
+    let mut t = [0u8; 16];
+    let mut i = 0;
+    while i < 15 {
+        t[i] = a[i + 1];
+        i += 1;
+    }
+    t[15] = a[0];
+    let mut out = t;
+    out[15] = ell(&t);
+    out
+}
+
+/// 4.2: L = R^16
+pub const fn l(a: &Block) -> Block {
+    let mut t = *a;
+    let mut i = 0;
+    while i < 16 {
+        t = r(&t);
+        i += 1;
+    }
+    t
+}
+
+/// 4.2: L^{-1} = (R^{-1})^16
+pub const fn l_inv(a: &Block) -> Block {
+    let mut t = *a;
+    let mut i = 0;
+    while i < 16 {
+        t = r_inv(&t);
+        i += 1;
+    }
+    t
+}
+
+/// LSX[k](a) = L(S(X[k](a)))
+pub const fn lsx(k: &Block, a: &Block) -> Block {
+    l(&s(&x(k, a)))
+}
+
+/// S^{-1}(L^{-1}(X[k](a))): one step of D, read from right to left in 4.4 (12)
+pub const fn x_linv_sinv(k: &Block, a: &Block) -> Block {
+    s_inv(&l_inv(&x(k, a)))
+}
+
+/// 4.2: F[k](a1, a0) = (LSX[k](a1) xor a0, a1)
+pub const fn f(k: &Block, a1: &Block, a0: &Block) -> (Block, Block) {
+    (x(&lsx(k, a1), a0), *a1)
+}
+
+/// Vec_128(i) for 0 <= i < 256
+pub const fn vec128(i: u8) -> Block {
+    let mut b = [0u8; 16];
+    b[15] = i;
+    b
+}
+
+/// 4.3: C_i = L(Vec_128(i)), i = 1, ..., 32
+pub const fn c(i: usize) -> Block {
+    l(&vec128(i as u8))
+}
+
+/// 4.3: K_1||K_2 = K;  (K_{2i+1}, K_{2i+2}) = F[C_{8(i-1)+8}] ... F[C_{8(i-1)+1}](K_{2i-1}, K_{2i}), i = 1..4.
+/// Returns K_1..K_10 as `rk[0..10]`.
+pub const fn key_schedule(key: &[u8; 32]) -> [Block; 10] {
+    let mut rk = [[0u8; 16]; 10];
+    let mut a1 = [0u8; 16];
+    let mut a0 = [0u8; 16];
+    let mut j = 0;
+    while j < 16 {
+        a1[j] = key[j];
+        a0[j] = key[16 + j];
+        j += 1;
+    }
+    rk[0] = a1;
+    rk[1] = a0;
+    let mut i = 1;
+    while i <= 4 {
+        let mut t = 1;
+        while t <= 8 {
+            let (n1, n0) = f(&c(8 * (i - 1) + t), &a1, &a0);
+            a1 = n1;
+            a0 = n0;
+            t += 1;
+        }
+        rk[2 * i] = a1;
+        rk[2 * i + 1] = a0;
+        i += 1;
+    }
+    rk
+}
+
+/// 4.4.1: E(a) = X[K_10] LSX[K_9] ... LSX[K_2] LSX[K_1](a)
+pub const fn encrypt_with(rk: &[Block; 10], a: &Block) -> Block {
+    let mut t = *a;
+    let mut i = 0;
+    while i < 9 {
+        t = lsx(&rk[i], &t);
+        i += 1;
+    }
+    x(&rk[9], &t)
+}
+
+/// 4.4.2: D(a) = X[K_1] S^{-1}L^{-1}X[K_2] ... S^{-1}L^{-1}X[K_9] S^{-1}L^{-1}X[K_10](a)
+pub const fn decrypt_with(rk: &[Block; 10], a: &Block) -> Block {
+    let mut t = *a;
+    let mut i = 9;
+    while i >= 1 {
+        t = x_linv_sinv(&rk[i], &t);
+        i -= 1;
+    }
+    x(&rk[0], &t)
+}
+
+pub const fn encrypt(key: &[u8; 32], a: &Block) -> Block {
+    encrypt_with(&key_schedule(key), a)
+}
+
+pub const fn decrypt(key: &[u8; 32], a: &Block) -> Block {
+    decrypt_with(&key_schedule(key), a)
+}
+
+// ---------------------------------------------------------------------------------------------------------
+// Derived notions used by contracts on table-driven implementations (not part of the standard's text).
+
+/// the block whose byte `i` is `v`, all others zero
+pub const fn unit(i: usize, v: u8) -> Block {
+    let mut b = [0u8; 16];
+    b[i] = v;
+    b
+}
+
+pub const fn xor(a: &Block, b: &Block) -> Block {
+    x(a, b)
+}
+
+pub const fn eq(a: &Block, b: &Block) -> bool {
+    let mut ok = true;
+    let mut i = 0;
+    while i < 16 {
+        ok &= a[i] == b[i];
+        i += 1;
+    }
+    ok
+}
+
+#[cfg(test)]
+mod tests {
+    use super::*;
+
+    fn h16(s: &str) -> Block {
+        let b = s.as_bytes();
+        assert!(b.len() == 32);
+        let mut out = [0u8; 16];
+        for i in 0..16 {
+            out[i] = (hv(b[2 * i]) << 4) | hv(b[2 * i + 1]);
+        }
+        out
+    }
+    fn hv(c: u8) -> u8 {
+        match c {
+            b'0'..=b'9' => c - b'0',
+            b'a'..=b'f' => c - b'a' + 10,
+            _ => panic!(),
+        }
+    }
+
+    #[test]
+    fn pi_is_a_permutation() {
+        let mut seen = [false; 256];
+        for i in 0..256 {
+            assert!(!seen[PI[i] as usize]);
+            seen[PI[i] as usize] = true;
+            assert_eq!(PI_INV[PI[i] as usize] as usize, i);
+        }
+    }
+
+    #[test]
+    fn field() {
+        // x^8 = x^7 + x^6 + x + 1
+        assert_eq!(gf_mul(0x80, 2), 0xC3);
+        for a in 0..=255u8 {
+            assert_eq!(gf_mul(1, a), a);
+            assert_eq!(gf_mul(a, 1), a);
+            for b in 0..=255u8 {
+                assert_eq!(gf_mul(a, b), gf_mul(b, a));
+            }
+        }
+    }
+
+    // A.1.1
+    #[test]
+    fn a11_s() {
+        let v = [
+            "ffeeddccbbaa99881122334455667700",
+            "b66cd8887d38e8d77765aeea0c9a7efc",
+            "559d8dd7bd06cbfe7e7b262523280d39",
+            "0c3322fed531e4630d80ef5c5a81c50b",
+            "23ae65633f842d29c5df529c13f5acda",
+        ];
+        for i in 0..4 {
+            assert_eq!(s(&h16(v[i])), h16(v[i + 1]));
+            assert_eq!(s_inv(&h16(v[i + 1])), h16(v[i]));
+        }
+    }
+
+    // A.1.2
+    #[test]
+    fn a12_r() {
+        let v = [
+            "00000000000000000000000000000100",
+            "94000000000000000000000000000001",
+            "a5940000000000000000000000000000",
+            "64a59400000000000000000000000000",
+            "0d64a594000000000000000000000000",
+        ];
+        for i in 0..4 {
+            assert_eq!(r(&h16(v[i])), h16(v[i + 1]));
+            assert_eq!(r_inv(&h16(v[i + 1])), h16(v[i]));
+        }
+    }
+
+    // A.1.3
+    #[test]
+    fn a13_l() {
+        let v = [
+            "64a59400000000000000000000000000",
+            "d456584dd0e3e84cc3166e4b7fa2890d",
+            "79d26221b87b584cd42fbc4ffea5de9a",
+            "0e93691a0cfc60408b7b68f66b513c13",
+            "e6a8094fee0aa204fd97bcb0b44b8580",
+        ];
+        for i in 0..4 {
+            assert_eq!(l(&h16(v[i])), h16(v[i + 1]));
+            assert_eq!(l_inv(&h16(v[i + 1])), h16(v[i]));
+        }
+    }
+
+    const KEY: [&str; 2] = ["8899aabbccddeeff0011223344556677", "fedcba98765432100123456789abcdef"];
+    fn key() -> [u8; 32] {
+        let mut k = [0u8; 32];
+        k[..16].copy_from_slice(&h16(KEY[0]));
+        k[16..].copy_from_slice(&h16(KEY[1]));
+        k
+    }
+
+    // A.1.4
+    #[test]
+    fn a14_key_schedule() {
+        let cs = [
+            "6ea276726c487ab85d27bd10dd849401",
+            "dc87ece4d890f4b3ba4eb92079cbeb02",
+            "b2259a96b4d88e0be7690430a44f7f03",
+            "7bcd1b0b73e32ba5b79cb140f2551504",
+            "156f6d791fab511deabb0c502fd18105",
+            "a74af7efab73df160dd208608b9efe06",
+            "c9e8819dc73ba5ae50f5b570561a6a07",
+            "f6593616e6055689adfba18027aa2a08",
+        ];
+        for i in 0..8 {
+            assert_eq!(c(i + 1), h16(cs[i]));
+        }
+        // F[C_1](K_1, K_2)
+        let (a1, a0) = f(&c(1), &h16(KEY[0]), &h16(KEY[1]));
+        assert_eq!(a1, h16("c3d5fa01ebe36f7a9374427ad7ca8949"));
+        assert_eq!(a0, h16(KEY[0]));
+        let ks = [
+            "8899aabbccddeeff0011223344556677",
+            "fedcba98765432100123456789abcdef",
+            "db31485315694343228d6aef8cc78c44",
+            "3d4553d8e9cfec6815ebadc40a9ffd04",
+            "57646468c44a5e28d3e59246f429f1ac",
+            "bd079435165c6432b532e82834da581b",
+            "51e640757e8745de705727265a0098b1",
+            "5a7925017b9fdd3ed72a91a22286f984",
+            "bb44e25378c73123a5f32f73cdb6e517",
+            "72e9dd7416bcf45b755dbaa88e4a4043",
+        ];
+        let rk = key_schedule(&key());
+        for i in 0..10 {
+            assert_eq!(rk[i], h16(ks[i]), "K_{}", i + 1);
+        }
+    }
+
+    // A.1.5, A.1.6
+    #[test]
+    fn a15_encrypt_decrypt() {
+        let a = h16("1122334455667700ffeeddccbbaa9988");
+        let b = h16("7f679d90bebc24305a468d42b9d4edcd");
+        let rk = key_schedule(&key());
+        assert_eq!(x(&rk[0], &a), h16("99bb99ff99bb99ffffffffffffffffff"));
+        assert_eq!(s(&x(&rk[0], &a)), h16("e87de8b6e87de8b6b6b6b6b6b6b6b6b6"));
+        assert_eq!(lsx(&rk[0], &a), h16("e297b686e355b0a1cf4a2f9249140830"));
+        assert_eq!(encrypt(&key(), &a), b);
+        assert_eq!(decrypt(&key(), &b), a);
+        assert_eq!(x(&rk[9], &b), h16("0d8e40e4a800d06b2f1b37ea379ead8e"));
+    }
+
+    #[test]
+    fn l_is_additive_on_samples() {
+        let a = h16("1122334455667700ffeeddccbbaa9988");
+        let mut acc = [0u8; 16];
+        for i in 0..16 {
+            acc = xor(&acc, &l(&unit(i, a[i])));
+        }
+        assert_eq!(acc, l(&a));
+    }
+}
